@@ -27,20 +27,23 @@ type Solver struct {
 	in        io.WriteCloser
 	bw        *bufio.Writer
 	out       *bufio.Reader
+	lines     chan string
+	Kills     int
 	Bin       string
 	Args      []string
 	TimeoutMs int
 
 	// per-scope bookkeeping: which terms have been defined in the solver
-	defined   map[*Term]bool
-	declUF    map[string]bool
-	Queries   int
-	Unknowns  int
-	Errors    int
-	Time      time.Duration
-	Log       io.Writer // optional transcript
-	LastError string
-	dead      bool
+	defined    map[*Term]bool
+	declUF     map[string]bool
+	Queries    int
+	Unknowns   int
+	Errors     int
+	Time       time.Duration
+	Log        io.Writer // optional transcript
+	LastError  string
+	dead       bool
+	restarting bool
 }
 
 func NewSolver(bin string, timeoutMs int) (*Solver, error) {
@@ -75,6 +78,21 @@ func (s *Solver) start() error {
 	s.bw = bufio.NewWriterSize(in, 1<<16)
 	s.out = bufio.NewReaderSize(out, 1<<16)
 	s.dead = false
+	// reader goroutine: lets the engine enforce a hard wall-clock limit per
+	// answer (z3's soft timeout does not interrupt every phase)
+	lines := make(chan string, 64)
+	s.lines = lines
+	rd := s.out
+	go func() {
+		defer close(lines)
+		for {
+			line, err := rd.ReadString('\n')
+			if err != nil {
+				return
+			}
+			lines <- line
+		}
+	}()
 	if !strings.Contains(s.Bin, "cvc5") {
 		s.send(fmt.Sprintf("(set-option :timeout %d)", s.TimeoutMs))
 		s.send("(set-option :model.completion true)")
@@ -96,6 +114,13 @@ func (s *Solver) Close() {
 }
 
 func (s *Solver) send(line string) {
+	if s.dead && !s.restarting {
+		// restart with a clean context: definitions are re-sent lazily
+		s.restarting = true
+		s.Close()
+		s.start()
+		s.restarting = false
+	}
 	if s.Log != nil {
 		fmt.Fprintln(s.Log, line)
 	}
@@ -105,22 +130,35 @@ func (s *Solver) send(line string) {
 }
 
 func (s *Solver) readLine() string {
+	if s.dead {
+		return "(error \"solver died\")"
+	}
 	if s.bw.Buffered() > 0 {
 		if err := s.bw.Flush(); err != nil {
 			s.dead = true
 			return "(error \"solver died\")"
 		}
 	}
-	line, err := s.out.ReadString('\n')
-	if err != nil {
+	limit := time.Duration(s.TimeoutMs)*time.Millisecond + 5*time.Second
+	select {
+	case line, ok := <-s.lines:
+		if !ok {
+			s.dead = true
+			return "(error \"solver died\")"
+		}
+		line = strings.TrimSpace(line)
+		if s.Log != nil {
+			fmt.Fprintln(s.Log, "; <- "+line)
+		}
+		return line
+	case <-time.After(limit):
+		// hard limit exceeded: kill the process; the caller sees an
+		// inconclusive answer and a fresh process is started on demand
+		s.Kills++
+		s.cmd.Process.Kill()
 		s.dead = true
-		return "(error \"solver died\")"
+		return "(error \"solver killed after hard time limit\")"
 	}
-	line = strings.TrimSpace(line)
-	if s.Log != nil {
-		fmt.Fprintln(s.Log, "; <- "+line)
-	}
-	return line
 }
 
 // Reset drops everything asserted/defined for the current path.
@@ -262,9 +300,21 @@ func (s *Solver) Check(b *Builder, extra []*Term, wantModel bool, vars []*Term) 
 		}
 	}
 	r := s.checkSat()
+	if s.dead {
+		// killed by the watchdog (or crashed): start a fresh process now;
+		// definitions are re-sent lazily
+		s.Close()
+		s.start()
+		return Unknown, nil
+	}
 	var m Model
 	if r == Sat && wantModel {
 		m = s.getModel(vars)
+	}
+	if s.dead {
+		s.Close()
+		s.start()
+		return Unknown, nil
 	}
 	if len(extra) > 0 {
 		s.send("(pop 1)")
